@@ -64,14 +64,15 @@ struct GenOpts
    bool allowNonFlattenable; // pointer and tag fields
    int  maxDepth;
    uint32 maxTopOps;
+   bool allowZeroItemFields; // C01: fields emptied through a sharing Message stay, with no items
    bool allowZeroLenRaw;     // zero-length raw items inside the common repertoire (C08 parse legs; the C builders cannot make them)
-   GenOpts() : commonRepertoire(false), pythonSafe(false), allowBursts(true), allowNonFlattenable(true), maxDepth(4), maxTopOps(28), allowZeroLenRaw(false) {}
+   GenOpts() : commonRepertoire(false), pythonSafe(false), allowBursts(true), allowNonFlattenable(true), maxDepth(4), maxTopOps(28), allowZeroItemFields(false), allowZeroLenRaw(false) {}
 };
 
 struct GenStats
 {
-   bool hasNaN, crossedInlineArray, hasNonFlattenable, hasZeroLenRaw, sharedSub; int maxDepth; uint32 numOps; uint32 typesMask; uint32 maxItems;
-   GenStats() : hasNaN(false), crossedInlineArray(false), hasNonFlattenable(false), hasZeroLenRaw(false), sharedSub(false), maxDepth(0), numOps(0), typesMask(0), maxItems(0) {}
+   bool hasNaN, crossedInlineArray, hasNonFlattenable, hasZeroLenRaw, hasZeroItemField, sharedSub; int maxDepth; uint32 numOps; uint32 typesMask; uint32 maxItems;
+   GenStats() : hasNaN(false), crossedInlineArray(false), hasNonFlattenable(false), hasZeroLenRaw(false), hasZeroItemField(false), sharedSub(false), maxDepth(0), numOps(0), typesMask(0), maxItems(0) {}
 };
 
 static const char * const NAMES[] = {"a", "b", "cc", "", "a_much_longer_field_name_123", "caf\xC3\xA9", "\xE2\x82\xAC", "!SnKy", "x y"};
@@ -174,7 +175,7 @@ private:
 
    void Op(int depth, Message & msg, MMsg & mod)
    {
-      const uint8_t op = _bs.u8()%16; const uint32 numNames = _o.commonRepertoire ? 7 : NUM_NAMES;
+      const uint8_t ob = _bs.u8(); uint8_t op = ob%16; if ((_o.allowZeroItemFields)&&(ob >= 244)) op = 16; const uint32 numNames = _o.commonRepertoire ? 7 : NUM_NAMES;
       const std::string fn = NAMES[_bs.u8()%numNames]; const int fi = mod.find(fn);
       switch(op)
       {
@@ -200,7 +201,12 @@ private:
             }
          }
          break;
-         case 5: case 11: if (fi >= 0)
+         case 5: case 11: if ((fi >= 0)&&(mod.f[fi].items.empty()))
+         {
+            // removing an item from a field that has none: the status of that corner is not documented; whatever it is, the field is either still there with no items or gone
+            (void) msg.RemoveData(fn.c_str(), 0); if (msg.HasName(fn.c_str()) == false) mod.f.erase(mod.f.begin()+fi);
+         }
+         else if (fi >= 0)
          {
             MField & f = mod.f[fi]; const size_t before = f.items.size();
             const uint32 idx = (op == 11) ? 0 : (uint32)(_bs.u8()%(uint32)(f.items.size()+1));
@@ -242,6 +248,17 @@ private:
             }
          }
          break;
+         case 16: if ((fi >= 0)&&(mod.f[fi].flattenable)&&(mod.f[fi].items.size() >= 1))
+         {
+            // a field that is present with no items: share it into a second Message and empty it through that one (the public-API route to a zero-item field)
+            MField & f = mod.f[fi]; const size_t before = f.items.size();
+            {Message side; if (msg.ShareName(fn.c_str(), side).IsError()) vf::Fail("ShareName failed"); uint32 removed = 0; while(side.RemoveData(fn.c_str(), 0).IsOK()) removed++; if (removed != before) vf::Fail("emptying a shared field removed %u of %zu items", removed, before);}
+            // whether the two Messages really share storage depends on the field's internal representation (a single inline item is copied): read back which of the two happened
+            uint32 now = 0; uint32 tcNow = 0; if (msg.GetInfo(fn.c_str(), &tcNow, &now).IsError()) vf::Fail("field [%s] vanished from the Message that shared it out", vf::Esc(fn).c_str());
+            if (now == 0) {f.items.clear(); f.subs.clear(); NoteCount(before, 0); st.hasZeroItemField = true;}
+            else if (now != before) vf::Fail("after emptying a shared field through the other Message this Message holds %u of %zu items", now, before);
+         }
+         break;
          case 12: if (fi >= 0)
          {
             const uint8_t k = _bs.u8()%2;
@@ -261,7 +278,8 @@ private:
          }
          break;
          case 14: if ((depth == 0)&&(_bs.u8()%16 == 0)) {msg.Clear((_bs.u8()&1) != 0); mod.f.clear();} break;
-         case 15: if (fi >= 0)
+         case 15: if ((fi >= 0)&&(mod.f[fi].items.empty())) {(void) msg.RemoveLastData(fn.c_str()); if (msg.HasName(fn.c_str()) == false) mod.f.erase(mod.f.begin()+fi);}     // (same undocumented corner)
+         else if (fi >= 0)
          {
             MField & f = mod.f[fi]; const size_t before = f.items.size();
             const status_t r = msg.RemoveLastData(fn.c_str()); if (r.IsError()) vf::Fail("RemoveLastData failed");
